@@ -243,6 +243,60 @@ def oracle(c, r, p):
 
 
 # ---------------------------------------------------------------------------------- K-exact (d): model vs real run
+def estimator_replies(c, r, p):
+    """every reply ?gscon hands to the estimator is the operator the estimator asked for, applied to its request: with
+    M = Pr*AA*Pc = L*U (the factored matrix) the reply y to a request x with KASE = kase1 (1 for the one norm, 2 for the
+    infinity norm) satisfies M y = x, any other reply satisfies M^H y = x -- up to the backward error of two triangular
+    solves.  Returns (failures, number of replies checked)"""
+    n, cx = c["n"], ll.is_cx(p)
+    if r.get("info") not in (0, n + 1) or "perm_r" not in r or "perm_c" not in r:
+        return [], 0
+    u = float(ll.U_ROUND[p])
+    vals = ll.to_entries(r["Aval"], p)
+    AAd = ll.dense_from_cols(n, c["ptr"], c["ind"], vals, 0)
+    pr, pc = r["perm_r"], r["perm_c"]
+    M = [[0] * n for _ in range(n)]
+    for i in range(n):
+        for j in range(n):
+            M[pr[i]][pc[j]] = complex(AAd[i][j]) if cx else float(AAd[i][j])
+    nrmM = max(sum(abs(v) for v in row) for row in M) if n else 0.0
+    rpg = r.get("rpg") or 1.0
+    tol = 200.0 * (n + 1) * u * (4 if cx else 1) / max(min(1.0, rpg), 1e-30)
+    if not (tol < 0.05):
+        return [], 0
+    fails, nchk = [], 0
+    norm, req = None, None
+    vec = (lambda fl: [complex(fl[2 * i], fl[2 * i + 1]) for i in range(len(fl) // 2)]) if cx else (lambda fl: list(fl))
+    for e in r["ev"]:
+        if e[0] == "gscon_in":
+            norm, req = chr(e[1]), None
+        elif e[0] == "ge_out":
+            req = (e[1], vec(e[2])) if e[1] != 0 else None
+        elif e[0] == "ge_in" and req is not None and norm is not None:
+            kase, x = req
+            y = vec(e[2])
+            req = None
+            if len(x) != n or len(y) != n or any(v != v for v in y):
+                continue
+            kase1 = 1 if norm in "1Oo" else 2
+            if kase == kase1:
+                res = [sum(M[i][j] * y[j] for j in range(n)) - x[i] for i in range(n)]
+                what = "inv(A)"
+            else:
+                res = [sum((M[j][i].conjugate() if cx else M[j][i]) * y[j] for j in range(n)) - x[i] for i in range(n)]
+                what = "inv(A)^H" if cx else "inv(A)^T"
+            nchk += 1
+            rn = max(abs(v) for v in res)
+            scale = nrmM * max(abs(v) for v in y) + max(abs(v) for v in x)
+            nrmMT = max(sum(abs(M[i][j]) for i in range(n)) for j in range(n))
+            scale = max(nrmM, nrmMT) * max(abs(v) for v in y) + max(abs(v) for v in x)
+            if rn > tol * scale:
+                fails.append(("estimator-reply", "?gscon('%s') answered the estimator's request KASE = %d with a vector that is not %s applied to "
+                              "the request: residual %.3e against scale %.3e (tolerance %.1e)" % (norm, kase, what, rn, scale, tol)))
+                break
+    return fails, nchk
+
+
 def call_seq(r):
     seq = []
     for e in r["ev"]:
@@ -509,6 +563,10 @@ def eval_batch(ctx, p, exe, cases, tag, ienv=None):
             model.setdefault(cid, {})[tagx] = v
     for c, r in done:
         fails, st = oracle(c, r, p)
+        f2, nrep = estimator_replies(c, r, p)
+        fails = fails + f2
+        if nrep:
+            ctx.corr("estimator replies inside ?gscon checked against the factored matrix (%s)" % p, nrep)
         nontriv = c["n"] > 1 and not st.get("singular_reported") and not st.get("exactly_singular")
         ctx.count(("ssvx", p, c["id"], c["kind"], c["n"], c["stype"], c["trans"], c["fact"], c["u"], c["permc"]),
                   nontrivial=nontriv, kind="%s-%s" % (p, c["kind"]))
